@@ -360,7 +360,7 @@ fn i5() -> Vec<Case> {
 /// I6: ranges have no memory.  What `b..e` denotes, prints as, iterates over and selects from a sequence
 /// does not depend on which ranges were built before it in the same interpreter: every ordered pair of
 /// ranges with end points in [-2,3] is used one after the other (the first one once more at the end),
-/// directly and with nine other ranges built in between.
+/// directly and with nine or seventy other ranges built in between.
 fn i6() -> Vec<Case> {
     let mut out = Vec::new();
     let rng = |b: i32, e: i32| Expr::Paren(Box::new(bin(BinOp::Range, num(b as f64), num(e as f64))));
@@ -375,18 +375,20 @@ fn i6() -> Vec<Case> {
             probe(bin(BinOp::Eq, rng(b, e), rng(b, e))),
         ]
     };
-    for churn in [false, true] {
+    // (nine: more than the eight ranges the interpreter is known to keep at hand; seventy: in case that
+    // number is ever raised)
+    for churn in [0, 9, 70] {
         for b1 in -2..=3 {
             for e1 in -2..=3 {
                 let mut prog = vec![var_stmt("v", Expr::VecLit(vec![num(10.0), num(20.0), num(30.0)])), var_stmt("t", Expr::TupleLit(vec![num(10.0), num(20.0), num(30.0)]))];
-                if churn {
-                    prog.push(fn_stmt(func("others", &[], vec![st(StmtKind::For("i".into(), rng(0, 9), vec![var_stmt("r", bin(BinOp::Range, bin(BinOp::Add, num(100.0), var("i")), bin(BinOp::Sub, num(200.0), var("i"))))]))])));
+                if churn > 0 {
+                    prog.push(fn_stmt(func("others", &[], vec![st(StmtKind::For("i".into(), rng(0, churn), vec![var_stmt("r", bin(BinOp::Range, bin(BinOp::Add, num(100.0), var("i")), bin(BinOp::Sub, num(200.0), var("i"))))]))])));
                 }
                 // one program per first range: every second range after it, the first one again each time
                 for b2 in -2..=3 {
                     for e2 in -2..=3 {
                         prog.extend(uses(b1, e1));
-                        if churn {
+                        if churn > 0 {
                             prog.push(expr_stmt(call(var("others"), vec![])));
                         }
                         prog.extend(uses(b2, e2));
@@ -414,7 +416,7 @@ pub fn run(ctx: &Ctx) -> Report {
     mcheck::fill_report(
         &mut report,
         &stats,
-        "I1: a for loop over every vec/tuple of length 0-3, every range b..e with b,e in [-2,3], every string of up to 2/3 characters over a 1-4-byte alphabet, and user-defined iterables (an iterator: normal, early stop; an iterator whose iter() starts over; a collection whose iter() makes a new cursor object); and 16 ranges with end points at or beyond the largest machine integers, left by break; I2: break/continue/return at each element position, nested loops over one iterable, one shared iterator; I3: every map/filter chain up to depth 2/3 with callbacks {identity, transform, predicate, always false, throwing on the second call}, reduce, collect, bad callbacks - on user-defined iterables both through iter() and directly on the object, on a reused object and after a loop left by break; I4: non-iterables, broken protocols, StopIter subclass, exhausted iterators; I5: push/pop/set of a vec at each position during its own iteration; I6: every ordered pair of ranges with end points in [-2,3] used one after the other in one interpreter (printed, iterated, as index into a vec, a tuple and a string, compared), directly and with nine other ranges built in between, the first one used again after each. non-trivial = at least two lines or an error.",
+        "I1: a for loop over every vec/tuple of length 0-3, every range b..e with b,e in [-2,3], every string of up to 2/3 characters over a 1-4-byte alphabet, and user-defined iterables (an iterator: normal, early stop; an iterator whose iter() starts over; a collection whose iter() makes a new cursor object); and 16 ranges with end points at or beyond the largest machine integers, left by break; I2: break/continue/return at each element position, nested loops over one iterable, one shared iterator; I3: every map/filter chain up to depth 2/3 with callbacks {identity, transform, predicate, always false, throwing on the second call}, reduce, collect, bad callbacks - on user-defined iterables both through iter() and directly on the object, on a reused object and after a loop left by break; I4: non-iterables, broken protocols, StopIter subclass, exhausted iterators; I5: push/pop/set of a vec at each position during its own iteration; I6: every ordered pair of ranges with end points in [-2,3] used one after the other in one interpreter (printed, iterated, as index into a vec, a tuple and a string, compared), directly and with nine / seventy other ranges built in between, the first one used again after each. non-trivial = at least two lines or an error.",
         json!({"sequence_length": 3, "string_chars": if thorough { 3 } else { 2 }, "adapter_depth": if thorough { 3 } else { 2 }}),
     );
     report.assumptions = vec!["vec iteration is by cursor index into the live vec; `for` stops at an instance whose class is exactly StopIter (Appendix A)".into()];
